@@ -322,7 +322,14 @@ def check_one(acc, A, handler, beh, bclass, where, route, accept):
     if exp[0] == 'not-reached':
         return
     hdrs = {'Accept': accept} if accept else None
-    res = wsgi.call(A.app, route, 'GET', headers=hdrs)
+    route, _, shape = route.partition('#')
+    if shape == 'short-form':
+        # a form POST whose body ends before its Content-Length (the client went away): nobody has read the body
+        # when the endpoint fails, the error page may want to
+        hdrs = dict(hdrs or {}, **{'Content-Type': 'application/x-www-form-urlencoded', 'Content-Length': '100'})
+        res = wsgi.call(A.app, route, 'POST', headers=hdrs, body=b'a=1')
+    else:
+        res = wsgi.call(A.app, route, 'GET', headers=hdrs)
     ctl.beh = None
     acc.evaluated += 1
     acc.transitions += 1
@@ -331,7 +338,7 @@ def check_one(acc, A, handler, beh, bclass, where, route, accept):
         acc.add('nontrivial')
     side = 'ep' if where == 'ep' else ('rn' if where == 'rn' else where.split('.', 1)[1])
     acc.outcome('%s|%s|%s|%s' % (mclass(beh) if beh[0] != 'http' else 'http:%s' % beh[2], side, handler, exp[0]))
-    case = {'handler': handler, 'behaviour': list(beh), 'where': where, 'route': route, 'accept': accept}
+    case = {'handler': handler, 'behaviour': list(beh), 'where': where, 'route': route + ('#' + shape if shape else ''), 'accept': accept}
 
     def bad(kind, msg):
         acc.violation('C08:%s:%s:%s:%s' % (kind, mclass(beh), handler, 'debugpage' if handler == 'debug' else 'plain'),
@@ -466,7 +473,7 @@ def layer_a_items(tier):
     for handler in HANDLERS:
         for where in positions():
             # '/item' is followed by a method-restricted sibling route on the same path
-            for route in ('/r', '/n', '/item', '/st'):
+            for route in ('/r', '/n', '/item', '/st', '/n#short-form'):
                 items.append((handler, where, route))
     return items
 
